@@ -19,8 +19,9 @@ for c, v in r.get("checks", {}).items():
 if not ok:
     print(json.dumps({k: v for k, v in r.items() if k != "checks"}, indent=1)); sys.exit(1)
 dst = os.path.join("/verif/seeded", sid)
-if os.path.isdir(dst): shutil.rmtree(dst)
-shutil.copytree(seed, dst)
+if os.path.realpath(seed) != os.path.realpath(dst):
+    if os.path.isdir(dst): shutil.rmtree(dst)
+    shutil.copytree(seed, dst)
 meta = json.load(open(os.path.join(dst, "meta.json")))
 meta["confirmed_by_coordinator"] = {"applies": True, "builds": True, "existing_suite_passes": True,
     "demo_fails_with_change": True, "demo_passes_without": True, "how": "tools/seedtest.py in a fresh worktree of /repo HEAD"}
